@@ -36,8 +36,12 @@ type z =
 | Zpos of positive
 | Zneg of positive
 
+val eqb : bool -> bool -> bool
+
 module Nat :
  sig
+  val eqb : nat -> nat -> bool
+
   val min : nat -> nat -> nat
  end
 
@@ -57,10 +61,6 @@ module Pos :
 
   val iter : ('a1 -> 'a1) -> 'a1 -> positive -> 'a1
 
-  val div2 : positive -> positive
-
-  val div2_up : positive -> positive
-
   val compare_cont : comparison -> positive -> positive -> comparison
 
   val compare : positive -> positive -> comparison
@@ -77,6 +77,8 @@ module Pos :
 
   val ldiff : positive -> positive -> n
 
+  val testbit : positive -> n -> bool
+
   val iter_op : ('a1 -> 'a1 -> 'a1) -> positive -> 'a1 -> 'a1
 
   val to_nat : positive -> nat
@@ -90,9 +92,9 @@ module N :
 
   val coq_lor : n -> n -> n
 
-  val coq_land : n -> n -> n
-
   val ldiff : n -> n -> n
+
+  val testbit : n -> n -> bool
  end
 
 module Z :
@@ -131,6 +133,8 @@ module Z :
 
   val eqb : z -> z -> bool
 
+  val max : z -> z -> z
+
   val min : z -> z -> z
 
   val to_nat : z -> nat
@@ -149,38 +153,40 @@ module Z :
 
   val odd : z -> bool
 
-  val div2 : z -> z
-
-  val shiftl : z -> z -> z
-
-  val shiftr : z -> z -> z
-
-  val coq_lor : z -> z -> z
+  val testbit : z -> z -> bool
 
   val coq_land : z -> z -> z
 
   val lnot : z -> z
  end
 
-val hd : 'a1 -> 'a1 list -> 'a1
-
 val tl : 'a1 list -> 'a1 list
 
-val nth : nat -> 'a1 list -> 'a1 -> 'a1
+val last : 'a1 list -> 'a1 -> 'a1
+
+val rev : 'a1 list -> 'a1 list
+
+val concat : 'a1 list list -> 'a1 list
+
+val map : ('a1 -> 'a2) -> 'a1 list -> 'a2 list
+
+val fold_right : ('a2 -> 'a1 -> 'a1) -> 'a1 -> 'a2 list -> 'a1
+
+val existsb : ('a1 -> bool) -> 'a1 list -> bool
+
+val forallb : ('a1 -> bool) -> 'a1 list -> bool
+
+val filter : ('a1 -> bool) -> 'a1 list -> 'a1 list
+
+val combine : 'a1 list -> 'a2 list -> ('a1 * 'a2) list
 
 val firstn : nat -> 'a1 list -> 'a1 list
 
 val skipn : nat -> 'a1 list -> 'a1 list
 
-val uw : z -> z -> z
+val seq : nat -> nat -> nat list
 
 val sw : z -> z -> z
-
-val set_vnum_loop : nat -> z -> z list
-
-val set_vnum64 : z -> z list
-
-val set_vnum32 : z -> z list
 
 val read_vnum_loop : z list -> z -> z -> nat -> (z * nat) option
 
@@ -188,67 +194,83 @@ val read_vnum : z list -> (z * nat) option
 
 val iWNUMBUF_SIZE : z
 
-val ascii2hex_tbl : z list
+val iWFSM_CUSTOM_HDR_DATA_OFFSET : z
+
+val iWKV_MAGIC : z
+
+val iWDB_MAGIC : z
+
+val iWKV_FSM_BPOW : z
+
+val kVHDRSZ : z
 
 val pREFIX_KEY_LEN_V2 : z
 
+val sLEVELS : z
+
+val sBLK_LKLEN : z
+
+val dB_SZ : z
+
+val sBLK_SZ : z
+
+val sBLK_PAGE_SBLK_NUM_V2 : z
+
+val sBLK_PAGE_SZ_V2 : z
+
+val kVBLK_IDXNUM : z
+
+val kVBLK_INISZPOW : z
+
+val kVBLK_HDRSZ : z
+
+val sOFF_FLAGS_U1 : z
+
+val sOFF_LVL_U1 : z
+
+val sOFF_LKL_U1 : z
+
+val sOFF_PNUM_U1 : z
+
+val sOFF_P0_U4 : z
+
+val sOFF_KBLK_U4 : z
+
+val sOFF_PI0_U1 : z
+
+val sOFF_N0_U4 : z
+
+val sOFF_BPOS_U1_V2 : z
+
+val sOFF_LK_V2 : z
+
+val dOFF_MAGIC_U4 : z
+
+val dOFF_DBFLG_U1 : z
+
+val dOFF_NEXTDB_U4 : z
+
+val dOFF_P0_U4 : z
+
+val dOFF_N0_U4 : z
+
+val dOFF_C0_U4 : z
+
+val dOFF_METABLK_U4 : z
+
+val dOFF_METABLKN_U4 : z
+
+val sBLK_FULL_LKEY : z
+
 val iW_VNUMBUFSZ : z
 
-val iW_VNUMSIZE : z -> z
+val iWDB_VNUM64_KEYS : z
 
-val iW_VNUMSIZE32 : z -> z
+val iWDB_REALNUM_KEYS : z
 
-val iW_RANGES_OVERLAP : z -> z -> z -> z -> z
+val iWDB_COMPOUND_KEYS : z
 
-val iW_ROUNDUP : z -> z -> z
-
-val iW_ROUNDOWN : z -> z -> z
-
-type mem = { m_len : z; m_init : (z -> z); m_wr : (z * z) list }
-
-val rd_wr : (z * z) list -> (z -> z) -> z -> z
-
-val inb : mem -> z -> bool
-
-val rd : mem -> z -> z option
-
-val wr : mem -> z -> z -> mem option
-
-val peek : mem -> z -> z
-
-val shl1 : nat -> mem -> z -> mem option
-
-val itoa_loop : nat -> z -> z -> z -> z -> z -> mem -> ((z * z) * mem) option
-
-val rev_loop : nat -> z -> z -> mem -> mem option
-
-val int64_min_text : z list
-
-val wr_list : mem -> z -> z list -> mem option
-
-val itoa_digits : z -> mem -> z -> z -> z -> (z * mem) option
-
-val itoa : z -> mem -> z -> (z * mem) option
-
-val cstr : nat -> mem -> z -> z list
-
-val skip_ws : z list -> z list
-
-val atoi_digits : z list -> z -> z
-
-val is_inf : z list -> bool
-
-val atoi : z list -> z
-
-val hexdigit : z -> z
-
-val bin2hex : z list -> z list
-
-val a2h : z -> z
-
-val hex2bin_even : z list -> z list
-
-val hex2bin : z list -> z list
+val iWFSM_MAGICK : z
 
 type kmode = { km_vnum : bool; km_real : bool; km_compound : bool }
 
@@ -257,8 +279,6 @@ val cmp2 : z list -> z list -> z
 val sgn3 : z -> z -> z
 
 val read_vnum2 : z list -> z
-
-val strncmp : nat -> z list -> z list -> z
 
 val memcmp : nat -> z list -> z list -> z
 
@@ -284,14 +304,112 @@ val cmp_keys_prefix :
 val cmp_keys :
   (nat -> z list -> z list -> z) -> kmode -> z list -> z list -> z -> z
 
-val stored : kmode -> z list -> z -> z list
+val u8 : (z -> z) -> z -> z
 
-val kcmp :
-  (nat -> z list -> z list -> z) -> kmode -> (z list * z) -> (z list * z) -> z
+val u16 : (z -> z) -> z -> z
 
-val sblk_cmp_key :
-  (nat -> z list -> z list -> z) -> kmode -> z list -> bool -> z list -> z ->
-  z option
+val u32 : (z -> z) -> z -> z
 
-val sblk_cmp_key_full :
-  (nat -> z list -> z list -> z) -> kmode -> z list -> z list -> z -> z
+val u64 : (z -> z) -> z -> z
+
+val bytes_at : (z -> z) -> nat -> z -> z list
+
+val bS : z
+
+val addr_of : z -> z
+
+val vnum_at : (z -> z) -> nat -> z -> z -> z -> z -> (z * z) option
+
+val rdv : (z -> z) -> z -> (z * z) option
+
+val bytes_eq : z list -> z list -> bool
+
+val list_eqz : z list -> z list -> bool
+
+type complaint =
+| CBadMagic of z
+| CBadDb of z
+| CChainLoop of z * z
+| CNodeHeader of z * z
+| CNodeEmpty of z
+| CNodeSlots of z * z
+| CNodeOrder of z
+| CGlobalOrder of z
+| CPrefix of z
+| CBackLink of z
+| CLevelChain of z * z
+| CLevelCount of z * z
+| CKvblk of z * z
+| CSlotOverlap of z
+| CBlocksOverlap of z
+| CLeak of z
+| CUnallocated of z
+| CBeyondFile of z
+
+type sblk = { s_blk : z; s_flags : z; s_lvl : z; s_lkl : z; s_pnum : 
+              z; s_p0 : z; s_kblk : z; s_pi : z list; s_n : z list;
+              s_bpos : z; s_lk : z list }
+
+val nSLEV : nat
+
+val nIDXA : nat
+
+val u32s : (z -> z) -> nat -> z -> z list
+
+val read_sblk : (z -> z) -> z -> sblk
+
+val read_pidx :
+  (z -> z) -> nat -> z -> (z * z) list -> ((z * z) list * z) option
+
+type kvb = { k_szpow : z; k_idxsz : z; k_pidx : (z * z) list; k_idxend : z }
+
+val read_kvblk : (z -> z) -> z -> kvb option
+
+val slot_key : (z -> z) -> z -> z -> z -> z -> (z list * z) option
+
+val unstore : kmode -> z list -> z list * z
+
+val stored_before : kmode -> z list -> z list -> bool
+
+val mode_of : z -> kmode
+
+val nthz : z list -> nat -> z
+
+val nthp : (z * z) list -> nat -> z * z
+
+val chain_ok : (z list -> z list -> bool) -> z list list -> bool
+
+val distinct : z list -> bool
+
+val ins_range : (z * z) -> (z * z) list -> (z * z) list
+
+val sort_ranges : (z * z) list -> (z * z) list
+
+val ranges_disjoint : (z * z) list -> bool
+
+val first_overlap : (z * z) list -> z option
+
+val audit_node :
+  (z -> z) -> kmode -> sblk -> (complaint list * z list list) * (z * z) list
+
+val walk : (z -> z) -> nat -> nat -> z -> z list -> z list option
+
+val page_of : sblk -> z * z
+
+val dedup : (z * z) list -> (z * z) list
+
+val audit_db : (z -> z) -> nat -> z -> (complaint list * (z * z) list) * z
+
+val audit_dbs : (z -> z) -> nat -> nat -> z -> complaint list * (z * z) list
+
+val bm_bit : (z -> z) -> z -> z -> bool
+
+val check_free : (z -> z) -> nat -> z -> z -> complaint list
+
+val check_used : (z -> z) -> nat -> z -> z -> complaint list
+
+val check_map : (z -> z) -> z -> z -> z -> (z * z) list -> complaint list
+
+val hDRLEN : z
+
+val audit : (z -> z) -> z -> complaint list
